@@ -681,6 +681,40 @@ func checkBindingTarget(c *Ctx) {
 			c.Bad(rule, spec.key, c.Pos(cs[0].Pos()), fmt.Sprintf("the listed binding target is not the chain library's for this workspace (key-from-%s=%v proof-type=%s want %s bitlength=%v reported=%v)", spec.keyField, okKey, pt, want, okBL, reported))
 		}
 	}
+	// the target reported for a workspace is computed for that workspace: no BindingTarget written into
+	// a response comes out of a map (a memo keyed by the public key alone hands a second space of the same
+	// key, with another size, the first one's target)
+	{
+		key := "listing:target-computed-per-workspace"
+		n := 0
+		memo := ""
+		for fn := range c.AllFuncs {
+			if pkgOf(fn) != pkgAPI {
+				continue
+			}
+			for _, fa := range fieldAccessesShallow(fn) {
+				if fa.Kind != "store" || fa.Field != "BindingTarget" {
+					continue
+				}
+				n++
+				for v := range backSlice(fa.In.(*ssa.Store).Val).vals {
+					if lk, isL := v.(*ssa.Lookup); isL {
+						if _, isMap := lk.X.Type().Underlying().(*types.Map); isMap {
+							memo = fn.Name() + " at " + c.Pos(lk.Pos())
+						}
+					}
+				}
+			}
+		}
+		switch {
+		case n == 0:
+			c.Bad(rule, key, "", "reason=anchor-missing: no store to a BindingTarget field in the api package")
+		case memo != "":
+			c.Bad(rule, key, "", "a listed binding target is looked up in a map ("+memo+") instead of being computed from the workspace's own key, proof type and size: two spaces sharing a key but differing in size are listed with the same target")
+		default:
+			c.OK(rule, key, "", fmt.Sprintf("%d BindingTarget stores, none fed from a map", n))
+		}
+	}
 	// address derives from the same workspace's key through the pay-to-pubkey-hash constructor
 	if g := c.Fn("api", "workSpaceInfo2ProtoWorkSpace"); g != nil {
 		key := "v1:address-from-same-key"
